@@ -267,7 +267,7 @@ def cacheseq(prop, tier, seed):
         fa = scratch_file("c01auto.ndjson")
         write_rows(arows, fa)
         try:
-            ares, _ = run_harness("replay-auto", ["-cases", fa, "-seed", seed, "-pacings", "0,2"], timeout=3000)
+            ares, _ = run_harness("replay-auto", ["-cases", fa, "-seed", seed, "-pacings", "0,1,2"], timeout=3000)
         finally:
             os.unlink(fa)
         tool_errors(ares["mismatches"])
@@ -278,7 +278,7 @@ def cacheseq(prop, tier, seed):
         cov["evaluations"] += ares["evaluations"]
         cov["traces_validated_against_impl"] += ares["evaluations"]
         cov["distinct_nontrivial"] += ares["distinct_nontrivial"]
-        cov["rule"] += "; plus seeded histories of spec/CacheAuto.tla on a real auto-refresh cache (free-running and watcher-held pacings), polled until equal to a fresh cache"
+        cov["rule"] += "; plus seeded histories of spec/CacheAuto.tla on a real auto-refresh cache (free-running, recorded-schedule and watcher-held pacings), polled until equal to a fresh cache and to the model"
     if prop == "C01":
         # unbounded in the directory list: the scan (slot, conflicts set, F5 repair) computes the precedence rule for
         # ARBITRARY integer priorities - an inductive invariant discharged by Apalache; with the F5 defect the step fails
